@@ -154,7 +154,8 @@ func WithBytes(seq Sequence, p []byte) Sequence {
 }
 
 func insert(p []byte, pos int, q []byte) []byte {
-	return append(p[:pos], append(q, p[pos:]...)...)
+	r := append(make([]byte, 0, len(p)+len(q)), p[:pos]...)
+	return append(append(r, q...), p[pos:]...)
 }
 
 // Insert a sequence at the given index. For any feature whose location covers
